@@ -77,6 +77,19 @@ let () =
       let (t, _) = parse_tree toks in
       let es = tar_entries (comps pre) (repro = "1") t in
       Printf.printf "%s ENT %s\n" id (String.concat "," (List.map show_entry es))
+    | id :: "XG" :: umask :: preserve :: pre :: toks ->
+      (* the base directory is set-group-ID (destination working directory setgid) *)
+      let (t, _) = parse_tree toks in
+      let es = tar_entries (comps pre) false t in
+      let um = n_of_int (int_of_string umask) in
+      let hyp = if is_dir t && wf_treeb t && modes_okb t && benign_tree (comps pre) t then "B1" else "B0" in
+      let f0 = (match fs_init um with
+                | [(p, NDir m)] -> [(p, NDir (N.coq_lor m (n_of_int 1024)))]
+                | f -> f) in
+      (match extract_list_partial true (comps pre) um (preserve = "1") f0 es with
+       | (f, None) -> Printf.printf "%s %s OK %s\n" id hyp (show_fs (finish_dirs (comps pre) (preserve = "1") es f))
+       | (_, Some (XAbsLink | XWriteThrough)) -> Printf.printf "%s UNJUDGED\n" id
+       | (_, Some e) -> Printf.printf "%s %s %s\n" id hyp (show_err e))
     | id :: (("X" | "XU") as k) :: umask :: preserve :: pre :: toks ->
       let (t, _) = parse_tree toks in
       let es = tar_entries (comps pre) false t in
